@@ -551,7 +551,11 @@ func (e *explorer) node(seq []int) bool {
 		// ...and the same behaviour from here on (hidden state): every
 		// continuation up to probeDepth gives identical results and
 		// observations on a pool that never saw the failed Add.
-		if bad, extra := e.probe(seq, nil, e.probeDepth); bad {
+		pd := e.probeDepth
+		if pd > 1 && len(seq) >= e.depth && e.depth >= 5 {
+			pd = 1 // deepest level of the thorough tier: one-step continuations only (keeps the run exhaustive within its budget)
+		}
+		if bad, extra := e.probe(seq, nil, pd); bad {
 			report("failed-add-changed-behaviour", obs, extra)
 			return false
 		}
@@ -724,6 +728,7 @@ func TestCheck(t *testing.T) {
 		"rule":                          "every operation sequence up to the depth over each scenario alphabet on a fresh real mempool.Pool; a state is distinct by its full exported observation + feer; non-trivial = non-empty pool",
 		"depth":                         depth,
 		"failed_add_probe_depth":        probeDepth,
+		"failed_add_probe_depth_note":   "continuations of length <= probe depth after every failed Add; at the deepest level of a depth-5 run the continuation length is 1",
 		"probe_continuations":           int(probes),
 		"pool_replays":                  int(execs),
 		"scenarios":                     alpha,
